@@ -12,14 +12,14 @@ CLAIM = dict(
           "element of view::matmul on operands of rank >= 2 is sum_{k<K} a[bcast_a(i), r, k] * b[bcast_b(i), k, c] (stretched "
           "batch axes read at 0, missing ones dropped); view::matmulv2 (tile/reshape/transpose/reshape/multiply/sum) yields the "
           "same shape and the same elements, hence equals view::matmul; dot (1-d and n-d second operand), inner, vecdot, outer, "
-          "diagonal and trace (offset >= 0, any two distinct axes of either sign, non-empty diagonal for trace) yield a view "
+          "diagonal and trace (ANY offset incl. negative and beyond the extent, any two distinct axes of either sign; non-empty "
+          "diagonal for trace; as repaired by fixes/C16_diagonal_offset.diff) yield a view "
           "with NumPy's shape and elements equal to the defining sums over exactly 0..K-1. PARTIAL: tensordot (explicit axes): "
           "success and shape proved, elements by correspondence only; kron: shape of a returned view proved, success and "
           "elements by correspondence only; matmulv2 with a 1-d operand, tensordot with integer axes, fixed-shape operand "
           "kinds: correspondence only. REFUTED parts (known findings, each with a _refuted theorem): view::matmul / "
           "array::matmul with a 1-d operand (out-of-range access on run-time shaped operands; matmulv2 is right), "
-          "diagonal / trace with a negative offset, trace of an empty diagonal, diagonal / trace whose offset exceeds the "
-          "extent. Tied to the C++ by running view:: and array:: matmul, view::matmulv2, dot, inner, outer, vecdot, "
+          "trace of an EMPTY diagonal (a reduction without initial value over an empty slice; NumPy gives 0). Tied to the C++ by running view:: and array:: matmul, view::matmulv2, dot, inner, outer, vecdot, "
           "tensordot (integer and explicit axes), kron, diagonal, trace on run-time shaped operands and a sample of "
           "fixed-shape (nested std::array) operands with integer data, under NDEBUG and under ASan+UBSan."),
     ref="5.16", technique="Coq proof (view combinators characterised once: reshape = same row-major rank, tile = per-axis mod, "
@@ -38,8 +38,7 @@ RULE = ("matmul: all pairs of shapes (batch_a ++ [n,k]) x (batch_b ++ [k',m]) wi
 THEOREM_STATUS = {"proved": ["C16_matmul_shape_spec", "C16_matmul_elem_spec", "C16_matmul_v2_spec", "C16_dot_spec", "C16_inner_spec", "C16_vecdot_spec",
                              "C16_outer_spec", "C16_diagonal_spec", "C16_trace_spec"],
                   "partial": ["C16_tensordot_shape_partial", "C16_kron_shape_partial"],
-                  "refuted": ["C16_matmul_v1_1d_refuted", "C16_diagonal_negative_offset_refuted", "C16_trace_empty_refuted",
-                              "C16_diagonal_beyond_refuted"]}
+                  "refuted": ["C16_matmul_v1_1d_refuted", "C16_trace_empty_refuted", "C16_trace_empty_beyond_refuted"]}
 ASSUMPTIONS = ["extents are positive", "the scalar addition is associative with a right-neutral zero (integers in the correspondence)",
                "element overflow is not modelled (test data keep every sum far below 2^63)"]
 
@@ -230,16 +229,12 @@ def classify(line, impl, spec, model):
     sh = _shapes(line)
     if op == "matmul" and kind in ("view", "eval") and (len(sh[0]) == 1 or len(sh[1]) == 1) and impl.startswith("trap"):
         return "matmul_1d_operand"
-    if op in ("trace", "diagonal"):
+    if op == "trace":
         s = sh[0]; d = len(s)
         off, a1, a2 = _ints(t[3]), _ints(t[4]) % d, _ints(t[5]) % d
         n1, n2 = s[a1], s[a2]
-        lib = min(n1 + off if off < 0 else n1, n2 - off if off > 0 else n2)     # the library's (unclamped) extent
-        if lib < 0 and impl.startswith("trap"):
-            return "diagonal_offset_beyond_extent"
-        if off < 0 and lib > 0 and impl.startswith("trap"):
-            return "diagonal_negative_offset"
-        if op == "trace" and lib == 0 and impl.startswith("trap"):
+        n = max(0, min(n1, n2 - off) if off >= 0 else min(n1 + off, n2))     # NumPy's diagonal length
+        if n == 0 and a1 != a2 and impl.startswith("trap"):
             return "trace_empty_diagonal"
     return None
 
